@@ -35,7 +35,7 @@ MANIFEST = {
     "never raises (mock_bracket_exact); after any such tree every module is exactly as before — key order, values, absence "
     "(globals_restored); every intermediate observation equals a state-free dynamic-extent reading (view_is_dynamic_extent). "
     "Model tied to /repo on every run by lowering generated comptime programs with the real compiler and comparing probes, "
-    "outcome and ordered __dict__ snapshots (quick 150 programs; thorough 3000).",
+    "outcome and ordered __dict__ snapshots (quick 150 programs; thorough 8000).",
     "level_note": "Trusted: Lean kernel + propext/Classical.choice/Quot.sound; hand-written model of dict + mock_builtins "
     "(correspondence is sampling); bodies that themselves mutate the module's int/float/len are excluded by hypothesis.",
     "technique": "Lean 4 proof (structural induction over trace trees, exact ordered-dict equality) + differential correspondence with the real tracer",
@@ -407,7 +407,7 @@ def tie(ctx):
     cases = _corpus_cases()
     if ctx.replay_in and "case" in ctx.replay_in.get("replay", {}):
         cases.append(ctx.replay_in["replay"]["case"])
-    for _ in range(ctx.n(150, 3000)):
+    for _ in range(ctx.n(150, 8000)):
         cases.append(_gen_case(ctx.rng, ctx.rng.choice([0, 1, 2, 2, 3])))
     _eval(ctx, cases)
 
